@@ -157,3 +157,9 @@ Proof.
   unfold member_of. destruct (mem_str p names) eqn:E; [|discriminate].
   intro H. inversion H; subst. split; [reflexivity | apply mem_str_In; exact E].
 Qed.
+
+(* the codec of a filter chain is its last stage, whatever transport stages precede it *)
+Lemma pdf_codec_last pre c : pdf_codec (pre ++ [c]) = c.
+Proof. unfold pdf_codec. apply last_last. Qed.
+Lemma pdf_content_type_last tbl pre c : pdf_content_type tbl (pre ++ [c]) = pdf_content_type tbl [c].
+Proof. unfold pdf_content_type. rewrite pdf_codec_last. reflexivity. Qed.
